@@ -92,6 +92,18 @@ Proof. reflexivity. Qed.
 Lemma sz_while c ch b ce : sz (FmtAst.SWhile c ch b ce) = S (S (szl b)).
 Proof. reflexivity. Qed.
 
+Definition range_exprs (r : frange) : list fexpr :=
+  match r with
+  | RStep a b c => (match a with Some x => [x] | None => [] end) ++ [b] ++ (match c with Some x => [x] | None => [] end)
+  | RExpr e => [e]
+  end.
+Lemma range_trees_eq r : range_trees r = map fexpr_tree (range_exprs r).
+Proof. destruct r as [[a|] b [c|]|e]; reflexivity. Qed.
+Lemma stmt_tree_for lv r ch b ce : stmt_tree (FmtAst.SFor lv r ch b ce) = Parser.SFor lv (range_trees r) (blk_of (body_trees false b)).
+Proof. reflexivity. Qed.
+Lemma sz_for lv r ch b ce : sz (FmtAst.SFor lv r ch b ce) = S (S (szl b)).
+Proof. reflexivity. Qed.
+
 (* ---------- contexts ---------- *)
 Definition frs := list (bool * bool * bool).           (* ParserRules.frames: (returns, returns a value, loop) *)
 Definition fr_ret (fr : frs) : bool := match fr with (r, _, _) :: _ => r | [] => false end.
@@ -146,6 +158,12 @@ Section Blocks.
   | sok_while fr G c body G1 : top_ok (envG G) c -> body_trees false body <> [] ->
       use_vars (tvars (fexpr_tree c)) ([] :: G) = Some G1 -> boks (fr_push true fr) G1 false false body ->
       sok fr G (FmtAst.SWhile c [] body [])
+  | sok_for fr G lv r body Gd G1 :
+      match lv with Some x => ident_text x = true /\ declare TB false x ([] :: G) = Some Gd | None => Gd = [] :: G end ->
+      Forall (item_ok (envG Gd) true) (range_exprs r) ->
+      use_vars (lvars (map fexpr_tree (range_exprs r))) Gd = Some G1 ->
+      body_trees false body <> [] -> boks (fr_push true fr) G1 false false body ->
+      sok fr G (FmtAst.SFor lv r [] body [])
   | sok_if fr G c body elifs G1 Gn Gm : top_ok (envG G) c -> body_trees false body <> [] ->
       use_vars (tvars (fexpr_tree c)) ([] :: G) = Some G1 -> boks (fr_push false fr) G1 false false body ->
       scope_block TB (blk_of (body_trees false body)) G1 = Some Gn -> coks fr Gn elifs Gm ->
@@ -850,11 +868,174 @@ Section Blocks.
     eexists. split; [reflexivity|]. split; [exact A4 | exact P4].
   Qed.
 
+  (* ---------- for ---------- *)
+  Definition list_toks (lvl : nat) (es : list fexpr) : list token :=
+    match map (fun a => toks_of_pieces (fmt_expr fx lvl a)) es with [] => [] | a :: r => a ++ more_args r end.
+
+  Lemma range_toks lvl r : toks_of_pieces (fmt_range fx lvl r) = list_toks lvl (range_exprs r).
+  Proof.
+    destruct r as [[a|] b [c|]|e]; unfold list_toks; cbn [fmt_range range_exprs app map more_args flat_map];
+      repeat (rewrite toks_cons || rewrite toks_app); cbn [tok_of_piece toks_of_pieces flat_map app]; rewrite ?app_nil_r; rewrite <- ?app_assoc; reflexivity.
+  Qed.
+
+  (* parseExprList on the formatted range expressions, up to the end of the line *)
+  Lemma p_expr_list_value lvl s es r e :
+    es <> [] -> Forall (item_ok (env_of B s) true) es ->
+    at_toks s (list_toks lvl es ++ mk T_NL :: r) e ->
+    exists s', p_expr_list B s = Ok (Some (map fexpr_tree es)) s' /\ at_toks s' (mk T_NL :: r) e.
+  Proof.
+    intros Hne Hall (Hr & Hw & He). unfold p_expr_list, expr_call.
+    set (E := env_of B s). set (fuel := efuel (cs s)). unfold list_toks in Hr.
+    set (ats := map (fun a => toks_of_pieces (fmt_expr fx lvl a)) es) in *.
+    assert (H2 : Forall2 (fun a t => RT E true a t /\ head_ok a) ats (map fexpr_tree es)).
+    { unfold ats. clear - Hall BT. induction es as [|a r0 IH]; [constructor|]. inversion Hall; subst. cbn [map].
+      constructor; [apply (item_rt E (env_no_tyerr B BT s) eq_refl fx true lvl a); assumption | apply IH; assumption]. }
+    assert (Hlen : forall a, In a ats -> List.length a <= List.length (match ats with [] => [] | a :: r => a ++ more_args r end)).
+    { clear. destruct ats as [|x r0]; [contradiction|]. intros a [<-|H]; [rewrite app_length; lia|]. rewrite app_length.
+      assert (List.length a <= List.length (more_args r0)); [|lia]. clear x. induction r0 as [|y r1 IH]; [contradiction|].
+      cbn [more_args flat_map]. fold (more_args r1). simpl. rewrite app_length. destruct H as [->|H]; [lia|]. specialize (IH H). lia. }
+    assert (Hnn : List.length ats <= S (List.length (match ats with [] => [] | a :: r => a ++ more_args r end))).
+    { clear. destruct ats as [|x r0]; [simpl; lia|]. rewrite app_length. cbn [List.length].
+      assert (List.length r0 <= List.length (more_args r0)); [|lia]. induction r0 as [|y r1 IH]; [simpl; lia|].
+      cbn [more_args flat_map]. fold (more_args r1). simpl. rewrite app_length. lia. }
+    assert (Hfu : 2 * S (List.length (match ats with [] => [] | a :: r => a ++ more_args r end)) <= fuel).
+    { unfold fuel, efuel, here. rewrite Hr, app_length. cbn [List.length]. lia. }
+    destruct (expr_list_loop E fuel ats (map fexpr_tree es) [] (cs s) (mk T_NL :: r) fuel [] H2 Hr Hw I) as (c & P & Q1 & Q2 & Q3).
+    { intros a Ha. specialize (Hlen a Ha). lia. }
+    { lia. }
+    rewrite P. cbn [rev app]. eexists. split; [reflexivity|]. apply collect_at; auto; [rewrite Q2; exact Hw | rewrite Q3; exact He].
+  Qed.
+
+  Lemma for_toks lvl lv r body q :
+    toks_of_pieces (fmt_stmt fx lvl (FmtAst.SFor lv r [] body [])) ++ mk T_NL :: q
+    = mk T_FOR :: mk T_WS :: (match lv with Some n => [tok_of_text n; mk T_WS; mk T_DECLARE; mk T_WS] | None => [] end)
+      ++ mk T_RANGE :: mk T_WS :: list_toks lvl (range_exprs r) ++ mk T_NL :: body_toks (S lvl) false body
+      ++ toks_of_pieces [Ind lvl] ++ mk T_END :: mk T_NL :: q.
+  Proof.
+    cbn [fmt_stmt]. unfold write_comment. cbn [is_empty]. unfold body_toks. rewrite <- range_toks.
+    destruct lv as [n|]; repeat (rewrite toks_cons || rewrite toks_app); cbn [tok_of_piece app toks_of_pieces flat_map];
+      change (tok_of_text k_for) with (mk T_FOR); change (tok_of_text k_range) with (mk T_RANGE);
+      change (tok_of_text k_declare) with (mk T_DECLARE); change (tok_of_text k_end) with (mk T_END);
+      rewrite <- ?app_assoc; cbn [app]; rewrite <- ?app_assoc; cbn [app]; rewrite ?app_nil_r; destruct lvl; reflexivity.
+  Qed.
+
+  Lemma list_head lvl E es : no_tyerr E -> e_fix_slice E = true -> es <> [] -> Forall (item_ok E true) es ->
+    exists t0 ts, list_toks lvl es = t0 :: ts /\ is_ws t0 = false.
+  Proof.
+    intros NT FS Hne Hall. destruct es as [|a r]; [contradiction|]. inversion Hall; subst.
+    destruct (item_rt E NT FS fx true lvl a H1) as [_ Hhd]. unfold list_toks. cbn [map].
+    destruct (toks_of_pieces (fmt_expr fx lvl a)) as [|t0 ts]; [contradiction|]. exists t0. eexists. split; [reflexivity|].
+    cbn [head_ok] in Hhd. unfold is_ws. destruct (ttype t0); try contradiction; reflexivity.
+  Qed.
+
+  Lemma range_exprs_ne r : range_exprs r <> [].
+  Proof. destruct r as [[a|] b [c|]|e]; discriminate. Qed.
+
+  Lemma P_for fr G lv r body Gd G1 :
+    match lv with Some x => ident_text x = true /\ declare TB false x ([] :: G) = Some Gd | None => Gd = [] :: G end ->
+    Forall (item_ok (envG Gd) true) (range_exprs r) ->
+    use_vars (lvars (map fexpr_tree (range_exprs r))) Gd = Some G1 ->
+    body_trees false body <> [] -> boks (fr_push true fr) G1 false false body ->
+    P_boks (fr_push true fr) G1 false false body ->
+    P_sok fr G (FmtAst.SFor lv r [] body []).
+  Proof.
+    intros Hlv Hall Hu Hne Hb IH lvl f s r0 Hf HST Hn. rewrite sz_for in Hf. destruct f as [|f]; [lia|].
+    rewrite for_toks in HST. rewrite stmt_tree_for, range_trees_eq.
+    pose proof HST as (Hat & Hpk & N & U & A & Fr & Fn).
+    cbn [parse_statement]. unfold parse_statement_body. rewrite (ST_ct _ _ _ _ _ HST). cbn [ttype mk].
+    unfold parse_for_stmt.
+    destruct (list_head lvl _ (range_exprs r) (envG_no_tyerr Gd) eq_refl (range_exprs_ne r) Hall) as (t0 & ts & Ht & Hw0).
+    set (q := body_toks (S lvl) false body ++ toks_of_pieces [Ind lvl] ++ mk T_END :: mk T_NL :: r0) in *.
+    set (rt := list_toks lvl (range_exprs r)) in *.
+    set (s0 := push_inherit true s).
+    assert (N0 : scs s0 <> []) by (unfold s0, push_inherit, push_scope; cbn [with_scs scs]; discriminate).
+    assert (A0 : abs s0 = [] :: G) by (unfold s0; rewrite abs_push_inherit, A; reflexivity).
+    assert (Fr0 : frames s0 = fr_push true fr) by (unfold s0; rewrite frames_push_inherit_fr, Fr; reflexivity).
+    (* the state that stands on "range", with the loop variable declared *)
+    assert (H4 : exists s4, (let s1 := adv s0 in
+                  match ct s1 with
+                  | T_IDENT =>
+                      let name := tlit (cur (cs s1)) in
+                      let '(ok, s2) := validate_var_decl B name (pos s1) false s1 in
+                      if ok then (Some (Some name), adv (snd (passert T_DECLARE (adv (scope_set name (pos s1) s2)))))
+                      else (None, s2)
+                  | _ => (Some None, s1)
+                  end) = (Some lv, s4) /\
+                at_toks s4 (mk T_RANGE :: mk T_WS :: rt ++ mk T_NL :: q) [] /\ scs s4 <> [] /\ sused s4 = [] /\ abs s4 = Gd /\
+                frames s4 = fr_push true fr /\ fns s4 = F).
+    { destruct lv as [x|].
+      - destruct Hlv as [Hx Hd]. rewrite (ident_text_spec x Hx) in HST. cbn [app] in HST.
+        destruct HST as (Hat' & _).
+        assert (A1 : at_toks (adv s0) (ident_tok x :: mk T_WS :: mk T_DECLARE :: mk T_WS :: mk T_RANGE :: mk T_WS :: rt ++ mk T_NL :: q) []).
+        { apply (adv_at s0 (mk T_FOR) (mk T_WS :: ident_tok x :: mk T_WS :: mk T_DECLARE :: mk T_WS :: mk T_RANGE :: mk T_WS :: rt ++ mk T_NL :: q) [] Hat'). reflexivity. }
+        set (s1 := adv s0) in *. cbv zeta.
+        assert (C1 : ct s1 = T_IDENT) by (destruct A1 as (R1 & _); unfold ct, cur_t, cur; rewrite R1; reflexivity).
+        assert (Cu : tlit (cur (cs s1)) = x) by (destruct A1 as (R1 & _); unfold cur; rewrite R1; reflexivity).
+        rewrite C1, Cu.
+        assert (Ab1 : abs s1 = [] :: G) by (unfold s1; rewrite abs_adv; exact A0).
+        assert (Fn1 : fns s1 = F) by (unfold s1, s0; rewrite fns_adv, fns_push_inherit; exact Fn).
+        assert (Hdne : declare TB false x ([] :: G) <> None) by (rewrite Hd; discriminate).
+        destruct (declare_decl_ok x s1 ([] :: G) Ab1 Fn1 Hdne) as (D1 & D2 & D3 & D4).
+        assert (Hvd : validate_var_decl B x (pos s1) false s1 = (true, s1)).
+        { unfold validate_var_decl. rewrite D1, D2, D3. cbn [negb andb]. rewrite D4. reflexivity. }
+        rewrite Hvd.
+        assert (N1 : scs s1 <> []) by exact N0.
+        pose proof (declare_sim B x (pos s1) false s1 ltac:(rewrite Hvd; reflexivity) N1) as Hds.
+        rewrite Fn1, Ab1 in Hds. fold TB in Hds. rewrite Hd in Hds. injection Hds as Hds.
+        set (s2 := scope_set x (pos s1) s1) in *.
+        assert (A2 : at_toks s2 (ident_tok x :: mk T_WS :: mk T_DECLARE :: mk T_WS :: mk T_RANGE :: mk T_WS :: rt ++ mk T_NL :: q) []).
+        { unfold s2, scope_set. rewrite D4. destruct (scs s1); [exact A1|]. exact A1. }
+        assert (A3 : at_toks (adv s2) (mk T_DECLARE :: mk T_WS :: mk T_RANGE :: mk T_WS :: rt ++ mk T_NL :: q) []).
+        { apply (adv_at s2 _ _ [] A2). reflexivity. }
+        rewrite (passert_ok T_DECLARE (adv s2)); [|destruct A3 as (R3 & _); unfold ct, cur_t, cur; rewrite R3; reflexivity]. cbn [snd].
+        eexists. split; [reflexivity|]. split; [apply (adv_at (adv s2) _ _ [] A3); reflexivity|].
+        split; [unfold s2; eapply scs_of_frames; [|exact N1]; unfold adv, upd; rewrite !frames_with_cs, frames_scope_set; reflexivity|].
+        split; [rewrite !sused_adv; unfold s2; rewrite sused_scope_set; unfold s1, s0; rewrite sused_adv, sused_push_inherit; exact U|].
+        split; [rewrite !abs_adv; symmetry; exact Hds|].
+        split; [rewrite !frames_adv; unfold s2; rewrite frames_scope_set; unfold s1; rewrite frames_adv; exact Fr0|].
+        rewrite !fns_adv. unfold s2. rewrite fns_scope_set. exact Fn1.
+      - subst Gd. cbn [app] in HST. destruct HST as (Hat' & _).
+        assert (A1 : at_toks (adv s0) (mk T_RANGE :: mk T_WS :: rt ++ mk T_NL :: q) []).
+        { apply (adv_at s0 (mk T_FOR) (mk T_WS :: mk T_RANGE :: mk T_WS :: rt ++ mk T_NL :: q) [] Hat'). reflexivity. }
+        cbv zeta. assert (C1 : ct (adv s0) = T_RANGE) by (destruct A1 as (R1 & _); unfold ct, cur_t, cur; rewrite R1; reflexivity).
+        rewrite C1. eexists. split; [reflexivity|]. split; [exact A1|]. split; [exact N0|].
+        split; [rewrite sused_adv; unfold s0; rewrite sused_push_inherit; exact U|]. split; [rewrite abs_adv; exact A0|].
+        split; [rewrite frames_adv; exact Fr0 | unfold s0; rewrite fns_adv, fns_push_inherit; exact Fn]. }
+    destruct H4 as (s4 & E4 & A4 & N4 & U4 & Ab4 & Fr4 & Fn4).
+    change (adv (push_inherit true s)) with (adv s0). cbv zeta in E4. rewrite E4. cbv beta iota.
+    rewrite (passert_ok T_RANGE s4); [|destruct A4 as (R4 & _); unfold ct, cur_t, cur; rewrite R4; reflexivity]. cbv beta iota. cbn [negb].
+    assert (A6 : at_toks (adv s4) (rt ++ mk T_NL :: q) []).
+    { apply (adv_at s4 _ _ [] A4). cbn [skip1 is_ws ttype mk]. rewrite Ht. exact Hw0. }
+    assert (Hall' : Forall (item_ok (env_of B (adv s4)) true) (range_exprs r)).
+    { rewrite (env_of_abs (adv s4)); [|rewrite fns_adv; exact Fn4]. rewrite abs_adv, Ab4. exact Hall. }
+    destruct (p_expr_list_value lvl (adv s4) (range_exprs r) q [] (range_exprs_ne r) Hall' A6) as (s7 & PL & A7).
+    rewrite PL. cbv beta iota.
+    assert (Q7 : serrs s7 = []) by (destruct A7 as (_ & _ & E7); exact E7).
+    destruct (p_expr_list_full B (adv s4) _ s7 PL Q7 ltac:(rewrite sused_adv; exact U4)) as (_ & Hu7 & Fn7 & U7).
+    destruct (p_expr_list_sn B (adv s4) _ s7 PL Q7) as (_ & Fr7).
+    rewrite abs_adv, Ab4, Hu in Hu7. injection Hu7 as HG1.
+    destruct (map fexpr_tree (range_exprs r)) as [|n more] eqn:En.
+    { exfalso. destruct (range_exprs r) eqn:Er; [exact (range_exprs_ne r Er)|discriminate En]. }
+    unfold tyerr_s. rewrite !BT. rewrite andb_false_r. rewrite (assert_eol_nl s7 q [] A7).
+    assert (Hq : is_ws (look0 (skip1 q)) = false).
+    { unfold q. apply (body_no_ws lvl) with (fr := fr_push true fr) (G := G1) (t := false); [|exact Hb]. rewrite end_toks. reflexivity. }
+    assert (HST2 : ST (apnl s7) (skip1 q) G1 (fr_push true fr)).
+    { split; [apply apnl_nl; assumption|]. split; [eapply apnl_peek; eassumption|].
+      split; [eapply scs_of_frames; [exact Fr7|]; unfold adv, upd; cbn [with_cs scs]; exact N4|]. split; [rewrite sused_apnl; exact U7|].
+      split; [rewrite abs_apnl; symmetry; exact HG1|].
+      split; [rewrite frames_apnl, Fr7, frames_adv; exact Fr4 | rewrite fns_apnl, Fn7, fns_adv; exact Fn4]. }
+    destruct (block_rt lvl f false (apnl s7) body (toks_of_pieces [Ind lvl] ++ mk T_END :: mk T_NL :: r0) (mk T_END) (mk T_NL :: r0) G1 (fr_push true fr)
+                Hb IH Hne ltac:(lia) (end_toks lvl _) eq_refl HST2) as (s3 & G' & PB & HST3 & _).
+    rewrite PB. cbv beta iota.
+    destruct (finish_end_rt s3 r0 G' _ HST3 Hn) as (A9 & P9).
+    eexists. split; [reflexivity|]. split; [exact A9 | exact P9].
+  Qed.
+
   (* ---------- the statement theorem ---------- *)
   Ltac cases :=
     first [ intros; eapply P_typed; eassumption | intros; eapply P_decl; eassumption | intros; eapply P_assign; eassumption
           | intros; eapply P_call; eassumption | intros; eapply P_retv; eassumption | intros; eapply P_ret; eassumption
-          | intros; eapply P_break; eassumption | intros; eapply P_while; eassumption
+          | intros; eapply P_break; eassumption | intros; eapply P_while; eassumption | intros; eapply P_for; eassumption
           | intros; eapply P_if; eassumption | intros; eapply P_if_else; eassumption
           | intros; eapply P_coks_nil | intros; eapply P_coks_cons; eassumption
           | intros; eapply P_boks_nil; eassumption | intros; eapply P_boks_blank; eassumption
